@@ -31,13 +31,14 @@ REQUIRED_HOOKS = ["H-assoc", "H-platform"]
 
 def bounds(tier):
     return {"cases": 260 if tier == "quick" else 8000, "cli_cases": 6 if tier == "quick" else 80,
-            "history": 16 if tier == "quick" else 160}
+            "history": 16 if tier == "quick" else 160, "stateful": 64 if tier == "quick" else 2000}
 
 
 def required_cells(tier):
     return ["leak-sensitive:macro", "leak-sensitive:once", "leak-sensitive:memo", "subset:size-1", "order:reversed",
             "platforms>=3", "commands>=4", "tu-boundary-snapshots", "cli:-p", "forced-include", "history>=200-commands",
-            "history>=200-once-skips", "db:no-directory-after-directory", "db:relative-directory"]
+            "history>=200-once-skips", "db:no-directory-after-directory", "db:relative-directory",
+            "stateful-option:same-compiler-twice", "stateful-option:different-values", "same-arguments-different-directory"]
 
 
 def gen_case(rng):
@@ -94,6 +95,151 @@ def check_history(ctx, case, base):
         return "violated"
     acc.held(cells=cells, nontrivial=nontriv, cls="H", sample={"commands": len(case["tus"])})
     return "held"
+
+
+KERNEL = """cbi_m_{k}_1;
+#if defined(__CUDA_ARCH__) && __CUDA_ARCH__ >= 890
+cbi_m_{k}_3;
+#elif defined(__CUDA_ARCH__) && __CUDA_ARCH__ >= 800
+cbi_m_{k}_5;
+#elif defined(__CUDA_ARCH__) && __CUDA_ARCH__ >= 750
+cbi_m_{k}_7;
+#elif defined(__CUDA_ARCH__)
+cbi_m_{k}_9;
+#else
+cbi_m_{k}_11;
+#endif
+#ifdef _OPENMP
+cbi_m_{k}_14;
+#endif
+"""
+
+
+def check_stateful_options(ctx, rng, base, index):
+    """Commands of one compiler whose options replace a default (nvcc --gpu-architecture / --gpu-code / -gencode replace
+    the default sm_70 pass) follow each other in one database: each command's passes are its own.  Expected = union
+    over commands of gcc per pass, the passes coming from the reference model of the compiler configuration."""
+    from codebasin import config
+    from cbimon.core import REPO
+    from cbimon.oracles import ccmodel
+    acc = ctx.acc
+    shutil.rmtree(base, ignore_errors=True)
+    root = os.path.join(base, "root")
+    os.makedirs(os.path.join(root, "src"))
+    builtin = ccmodel.load_builtin(REPO)
+    n = rng.randint(2, 5)
+    plats = ["a100", "h100"][: rng.randint(1, 2)]
+    entries = {p: [] for p in plats}
+    want = {p: set() for p in plats}
+    flat = []
+    for j in range(n):
+        k = f"k{j}"
+        src = os.path.join(root, "src", k + ".cu")
+        with open(src, "w") as f:
+            f.write(KERNEL.replace("{k}", k))
+        arch = rng.choice([70, 75, 80, 89, 90])
+        sp = rng.choice([["--gpu-architecture=sm_%d"], ["--gpu-architecture", "sm_%d"], ["--gpu-code=sm_%d"],
+                         ["-gencode", "arch=compute_%d,code=sm_%d"], [], ["--gpu-architecture=compute_%d"]])
+        argv = ["nvcc"] + [x.replace("%d", str(arch)) for x in sp] + (["-fopenmp"] if rng.random() < 0.3 else []) + ["-c", src]
+        p = plats[j % len(plats)]
+        entries[p].append({"file": src, "directory": root, "arguments": argv})
+        flat.append(argv)
+        exp, status = ccmodel.expected(builtin, "nvcc", argv[1:])
+        for pname, v in exp.items():
+            g = gcc.preprocess(src, defines=v["cmd"][0] + v["extra"][0])
+            if not g["ok"]:
+                acc.inconc("gcc rejects kernel: " + g["stderr"][:200])
+                return
+            want[p] |= {(k, int(m.rsplit("_", 1)[1])) for m in g["markers"]}
+    problems = []
+    cells = {"stateful-option:same-compiler-twice"}
+    if len({tuple(a[1:-2]) for a in flat}) >= 2:
+        cells.add("stateful-option:different-values")
+    for order in ("given", "reversed"):
+        conf = {}
+        try:
+            for p in (plats if order == "given" else plats[::-1]):
+                es = entries[p] if order == "given" else entries[p][::-1]
+                db = os.path.join(base, f"{p}.json")
+                with open(db, "w") as f:
+                    json.dump(es, f)
+                conf[p] = config.load_database(db, root)
+            state, _ = cbi.run_find(root, conf)
+            acc.hook("H-load_database")
+            for p in plats:
+                got = set()
+                for j in range(n):
+                    src = os.path.join(root, "src", f"k{j}.cu")
+                    text = KERNEL.replace("{k}", f"k{j}").split("\n")
+                    got |= {(f"k{j}", ln) for ln in cbi.used_lines(state, src, p) if text[ln - 1].startswith("cbi_m_")}
+                if got != want[p]:
+                    problems.append({"kind": "passes of a command depend on earlier commands of the same compiler", "order": order, "platform": p,
+                                     "missing": sorted(want[p] - got)[:8], "extra": sorted(got - want[p])[:8]})
+        except Exception as e:
+            problems.append({"kind": "exception", "order": order, "observed": f"{type(e).__name__}: {e}"})
+    rec = {"input": {"stateful": True, "commands": flat}, "witness": {"commands": flat, "platforms": {p: [e["arguments"] for e in entries[p]] for p in plats},
+                                                                       "problems": problems[:4]}}
+    if problems:
+        acc.violated(rec, cells=cells, nontrivial={"commands": flat}, cls="S")
+    else:
+        acc.held(cells=cells, nontrivial={"commands": flat}, cls="S", sample={"commands": flat})
+
+
+def check_same_arguments_other_directory(ctx, rng, base):
+    """The same source file (absolute path) compiled by commands with IDENTICAL arguments from different build
+    directories, each holding its own generated config.h found through `-I.`: the commands differ only in where they
+    run, and each contributes its own lines.  gcc run in each directory is the oracle."""
+    from codebasin import config
+    acc = ctx.acc
+    shutil.rmtree(base, ignore_errors=True)
+    root = os.path.join(base, "root")
+    os.makedirs(os.path.join(root, "src"))
+    src = os.path.join(root, "src", "main.c")
+    variants = rng.sample(["cpu", "gpu", "fpga", "dsp"], rng.randint(2, 4))
+    lines = ["cbi_m_main_1;", "#include <config.h>"]
+    for v in variants:
+        lines += [f"#ifdef USE_{v.upper()}", f"cbi_m_main_{len(lines) + 2};", "#endif"]
+    with open(src, "w") as f:
+        f.write("\n".join(lines) + "\n")
+    argv = ["gcc", "-I.", "-DCOMMON=1", "-c", src]
+    entries, want = [], set()
+    for v in variants:
+        bd = os.path.join(root, "build", v)
+        os.makedirs(bd)
+        with open(os.path.join(bd, "config.h"), "w") as f:
+            f.write(f"#define USE_{v.upper()} 1\ncbi_m_{v}_2;\n")
+        entries.append({"file": src, "directory": bd if rng.random() < 0.5 else os.path.relpath(bd, root), "arguments": list(argv)})
+        g = gcc.preprocess(src, defines=["COMMON=1"], search=[("I", ".")], cwd=bd)
+        if not g["ok"]:
+            acc.inconc("gcc: " + g["stderr"][:200])
+            return
+        want |= set(g["markers"])
+    problems = []
+    for order in ("given", "reversed"):
+        es = entries if order == "given" else entries[::-1]
+        db = os.path.join(base, "db.json")
+        with open(db, "w") as f:
+            json.dump(es, f)
+        try:
+            conf = config.load_database(db, root)
+            state, _ = cbi.run_find(root, {"p": conf})
+            acc.hook("H-load_database")
+            got = set()
+            files = [src] + [os.path.join(root, "build", v, "config.h") for v in variants]
+            for fn in files:
+                text = open(fn).read().split("\n")
+                if state.get_tree(fn) is not None:
+                    got |= {gcc.MARK.findall(text[ln - 1])[0] for ln in cbi.used_lines(state, fn, "p") if gcc.MARK.findall(text[ln - 1])}
+            if got != want:
+                problems.append({"kind": "commands that differ only in their directory", "order": order, "missing": sorted(want - got), "extra": sorted(got - want)})
+        except Exception as e:
+            problems.append({"kind": "exception", "order": order, "observed": f"{type(e).__name__}: {e}"})
+    cells = {"same-arguments-different-directory"}
+    rec = {"input": {"stateful": True, "entries": entries}, "witness": {"entries": entries, "problems": problems[:4]}}
+    if problems:
+        acc.violated(rec, cells=cells, nontrivial={"entries": entries}, cls="S")
+    else:
+        acc.held(cells=cells, nontrivial={"entries": entries}, cls="S", sample={"entries": entries})
 
 
 def run_cbi(case, base, tus=None, monitor=False):
@@ -326,6 +472,14 @@ def run_shard(ctx):
         case = gen_case(rng)
         if ctx.mine(i):
             check_case(ctx, case, base, "R", do_cli=(i < b["cli_cases"] * 2 and i % 2 == 0))
+    rng = ctx.rng("stateful")
+    for i in range(b["stateful"]):
+        import random as _r
+        r2 = _r.Random(rng.random())
+        if ctx.mine(i):
+            check_stateful_options(ctx, r2, base, i)
+            if i % 4 == 0:
+                check_same_arguments_other_directory(ctx, r2, base)
     rng = ctx.rng("history")
     for i in range(b["history"]):
         case = gen_history_case(rng)
@@ -335,6 +489,8 @@ def run_shard(ctx):
 
 
 def replay(record, ctx):
+    if record["input"].get("stateful"):
+        return {"verdict": "unknown", "note": "re-run ./check C08; the witness lists the commands"}
     if len(record["input"]["tus"]) >= 200:
         res = check_history(ctx, record["input"], os.path.join(ctx.scratch, "c08"))
         return {"verdict": res, "violations": ctx.acc.violations}
